@@ -198,7 +198,7 @@ def parseAction (ws : List String) : Option Action :=
   | ["bcast", _] => some (.bcast .reject)
   | ["gettx", "truth"] => some (.gettx .truth)
   | ["gettx", "h0"] => some (.gettx .h0)
-  | ["gettx", "err"] => some (.gettx .err)
+  | ["gettx", "err"] | ["gettx", "code5"] | ["gettx", "empty"] | ["gettx", "negative"] => some (.gettx .err)
   | ["giveup"] => some .giveup
   | ["wait"] => some .wait
   | ["bump", n] => some (.bump n.toNat!)
@@ -209,6 +209,9 @@ def parseAction (ws : List String) : Option Action :=
 
 def run (lines : Array String) : Driver.Report := Id.run do
   let mut r : Driver.Report := {}
+  -- monitor lines are collected apart and printed first: the shared output cap must not let a
+  -- flood of disagreement lines hide a monitor failure
+  let mut m : Driver.Report := {}
   let mut st : St := {}
   let mut n := 0
   for line in lines do
@@ -280,22 +283,22 @@ def run (lines : Array String) : Driver.Report := Id.run do
         let i := parseDump idump
         let conf := confirmedHeights i.chain
         if !gapFree st.base conf then
-          r := r.addMonitor "no_gap" n line s!"heights confirmed on the fake Celestia chain {conf} have a gap above {st.base}"
+          m := m.addMonitor "no_gap" n line s!"heights confirmed on the fake Celestia chain {conf} have a gap above {st.base}"
         if !tampered then
           match parseSt i.file with
           | none =>
-            r := r.addMonitor "file_parseable" n line s!"state file is `{i.file}`: not a complete parseable state"
+            m := m.addMonitor "file_parseable" n line s!"state file is `{i.file}`: not a complete parseable state"
           | some fst =>
             let wf := match fst with
               | .prepared h l _ => decide (l.sh < h)
               | _ => true
             if !wf then
-              r := r.addMonitor "file_parseable" n line s!"state file `{i.file}` holds a prepared height <= its last submitted height"
+              m := m.addMonitor "file_parseable" n line s!"state file `{i.file}` holds a prepared height <= its last submitted height"
             if !coveredUpTo st.base conf fst.last then
-              r := r.addMonitor "recorded_confirmed" n line
+              m := m.addMonitor "recorded_confirmed" n line
                 s!"state file records sequencer height {fst.last} as submitted, confirmed on the fake chain: {conf}"
         st := { st with w := w', tampered := tampered, saved := saved, foreign := foreign }
     | _ => r := r.addDisagree n line "bad-area"
-  return r
+  return { r with monitorFail := m.monitorFail, out := m.out ++ r.out }
 
 end Driver.CrashArea
